@@ -68,7 +68,8 @@ class Check:
             mag = 10 ** rnd.uniform(-2, 1)
             return {'family': 'const', 'q0': W.rand_unit(rnd, 4), 'w': [mag * x for x in W.rand_unit(rnd)],
                     'dt': 10 ** rnd.uniform(-3, math.log10(5e-2)), 'n': rnd.choice([2, 5, 30, 100, 300] + ([600] if big else [])),
-                    'dt_route': rnd.choice(['Dt', 'frequency', 'call']), 'q0_scale': rnd.choice([1.0, 1.0, 3.0])}
+                    'dt_route': rnd.choice(['Dt', 'frequency', 'call', 'call']), 'q0_scale': rnd.choice([1.0, 1.0, 3.0]),
+                    'jitter_seed': rnd.randrange(1 << 30) if rnd.random() < 0.5 else None}
         if fam == 'deadreckon':
             n = rnd.choice([40, 100, 250] + ([600] if big else []))
             world = W.gen_world(rnd, n, allow_kicks=True, magnitudes='nominal', gyr_floor=1e-9)
@@ -119,12 +120,21 @@ class Check:
         ar = ahrs.filters.AngularRate(**kw)
         x = 0.5 * dt_eff * float(np.linalg.norm(w))
         stats['max_x'] = x
-        # 1. closed form, streamed
+        # 1. closed form, streamed.  With the per-call route the clock may jitter: every step gets its own period and
+        #    the truth is q0 exp(w * elapsed / 2) with the accumulated elapsed time.
         q = q0u.copy()
         call = {'dt': dt} if route == 'call' else {}
+        jit = None
+        if route == 'call' and scn.get('jitter_seed') is not None:
+            jr = random.Random(scn['jitter_seed'])
+            jit = [dt * jr.choice([0.5, 0.8, 1.0, 1.0, 1.25, 2.0]) for _ in range(n + 1)]
+        elapsed = 0.0
         for k in range(1, n + 1):
+            if jit is not None:
+                call = {'dt': jit[k]}
+            elapsed += call.get('dt', dt_eff) if route == 'call' else dt_eff
             q = np.asarray(ar.update(q, w, method='closed', **call), dtype=float)
-            truth = qm.qmul(q0u, qm.qexp(w * (k * dt_eff)))
+            truth = qm.qmul(q0u, qm.qexp(w * elapsed))
             err = float(np.abs(q - truth).max())
             stats['max_closed_err_per_step'] = max(stats.get('max_closed_err_per_step', 0.0), err / k)
             log.add('closed', k, q)
@@ -132,6 +142,25 @@ class Check:
                 viol.append(self._v('angular_closed', 'inexact', k, f'tick {k}: |q - q0 exp(w t/2)| = {err:.3g} (allowed {1e-13 * k + 1e-12:.3g}); |w|={np.linalg.norm(w):.4g} dt={dt_eff:.4g} route={route}'))
                 break
         stats['steps'] += n
+        # 1c. the public first-order prediction steps, iterated with the *same* rate array object as a caller would
+        ekf = ahrs.filters.EKF(magnetic_ref=60.0, **kw)
+        roleq = ahrs.filters.ROLEQ(magnetic_ref=60.0, **kw)
+        w_obj = w.copy()
+        qe = q0u.copy()
+        qr = q0u.copy()
+        ref = q0u.copy()
+        for k in range(1, min(n, 60) + 1):
+            ref = first_order(ref, w, dt_eff)
+            qe = qm.qnorm(np.asarray(ekf.f(qe, w_obj, dt_eff), dtype=float))
+            qr = np.asarray(roleq.attitude_propagation(qr, w_obj, dt_eff), dtype=float)
+            for comp, val in (('ekf_f', qe), ('roleq_prop', qr)):
+                d = float(np.abs(val - ref).max())
+                if not d <= 1e-12 * k + 1e-12:
+                    viol.append(self._v(comp, 'prediction-step', k, f'step {k} of a constant-rate run: iterated prediction differs from the iterated first-order step by {d:.3g} (rate array reused between calls)'))
+                    break
+            if viol and viol[-1]['component'] in ('ekf_f', 'roleq_prop'):
+                break
+        stats['steps'] += 2 * min(n, 60)
         # 1b. closed form, batch constructor (needs the period at construction)
         if route != 'call':
             gyr = np.tile(w, (n + 1, 1))
@@ -146,6 +175,7 @@ class Check:
                 log.add('batch', Q)
             except Exception as e:      # noqa: BLE001
                 viol.append(self._v('angular_closed', f'crash:{type(e).__name__}', 0, f'batch constructor raised {type(e).__name__}: {e}'))
+        call = {'dt': dt} if route == 'call' else {}
         # 2. series orders along the closed-form trajectory
         ticks = sorted(set([0, 1, n // 2, n - 1]))
         for k in ticks:
